@@ -20,7 +20,8 @@
 //!  * alloc/realloc result is non-null and a multiple of `align`; size 0 (from nothing or from
 //!    a zero-sized block) returns exactly `align as *mut u8`;
 //!  * result is the start of a live allocator block of at least the requested size;
-//!  * after realloc the first min(old,new) bytes equal the old contents;
+//!  * after realloc the first min(old,new) bytes equal the old contents (blocks above 16 KiB are
+//!    written/compared on windows: head, tail, every page boundary, around every alphabet size);
 //!  * blocks not named by a request keep their contents;
 //!  * `Cleanup::new`: pointer null ⇔ size 0; dropping frees the block exactly once with the
 //!    layout it was allocated with; `forget` frees nothing and leaves the contents alone;
@@ -408,21 +409,59 @@ fn master() -> &'static [u8] {
     })
 }
 
+/// Blocks above this size are written and compared on a fixed set of windows instead of
+/// byte by byte: the first 4096 bytes, 64 bytes at every 4096-byte boundary, and 128 bytes
+/// around every size of the alphabet (those are the only possible min(old,new) cut points),
+/// plus the last 4096 bytes.
+const SPARSE_ABOVE: usize = 16384;
+
+fn windows(size: usize, f: &mut dyn FnMut(usize, usize)) {
+    if size <= SPARSE_ABOVE {
+        f(0, size);
+        return;
+    }
+    f(0, 4096);
+    let mut o = 4096;
+    while o + 64 <= size {
+        f(o, o + 64);
+        o += 4096;
+    }
+    for s in SIZES {
+        if s > 4096 && s <= size {
+            f(s - 64, s.min(size));
+            if s + 64 <= size {
+                f(s, s + 64);
+            }
+        }
+    }
+    f(size - 4096, size);
+}
+
 fn fill(b: &mut Block, counter: &mut usize) {
     *counter += 1;
     b.seed = (*counter * 37 + 11) % 1021;
-    if b.size > 0 {
-        let m = &master()[b.seed..b.seed + b.size];
-        unsafe { std::ptr::copy_nonoverlapping(m.as_ptr(), b.ptr as *mut u8, b.size) };
-    }
+    let (seed, ptr) = (b.seed, b.ptr);
+    windows(b.size, &mut |lo, hi| {
+        let m = &master()[seed + lo..seed + hi];
+        unsafe { std::ptr::copy_nonoverlapping(m.as_ptr(), (ptr + lo) as *mut u8, hi - lo) };
+    });
 }
 
+/// do the first `upto` bytes of the block still hold what `fill` wrote (on the windows of the
+/// block's size that lie below `upto`)?
 fn intact(b: &Block, upto: usize) -> bool {
-    if upto == 0 {
-        return true;
-    }
-    let s = unsafe { std::slice::from_raw_parts(b.ptr as *const u8, upto) };
-    s == &master()[b.seed..b.seed + upto]
+    let mut ok = true;
+    windows(b.size, &mut |lo, hi| {
+        let hi = hi.min(upto);
+        if lo >= hi {
+            return;
+        }
+        let s = unsafe { std::slice::from_raw_parts((b.ptr + lo) as *const u8, hi - lo) };
+        if s != &master()[b.seed + lo..b.seed + hi] {
+            ok = false;
+        }
+    });
+    ok
 }
 
 fn exec(seq: &[Op], stats: &mut Stats, verbose: bool) -> Option<Fail> {
@@ -491,13 +530,16 @@ fn exec(seq: &[Op], stats: &mut Stats, verbose: bool) -> Option<Fail> {
                     println!("  step {step}: {sig} on #{bi} {p:#x} -> {q:#x}  allocator events: {evs:?}");
                 }
                 blocks[bi].ptr = q;
-                blocks[bi].size = m;
                 if let Some((k, msg)) = check_result(q, a, m) {
+                    blocks[bi].size = m;
                     bad!(step, k, sig, "cabi_realloc({p:#x},{n},{a},{m}) returned {q:#x}: {msg}");
                     break 'steps;
                 }
                 let keep = n.min(m);
-                if !intact(&blocks[bi], keep) {
+                // compared on the windows of the old size, which is how the block was written
+                let preserved = intact(&blocks[bi], keep);
+                blocks[bi].size = m;
+                if !preserved {
                     bad!(step, "contents-lost", sig, "after cabi_realloc({p:#x},{n},{a},{m}) -> {q:#x} the first {keep} bytes differ from the old contents");
                     break 'steps;
                 }
@@ -837,7 +879,11 @@ fn main() {
             Family { name: "scratch", host: false, scratch: true, depth: 4 },
         ]
     } else {
-        vec![Family { name: "mixed", host: true, scratch: true, depth: 3 }]
+        vec![
+            Family { name: "mixed", host: true, scratch: true, depth: 2 },
+            Family { name: "host", host: true, scratch: false, depth: 3 },
+            Family { name: "scratch", host: false, scratch: true, depth: 3 },
+        ]
     };
 
     let max_units: Option<usize> = run
